@@ -443,6 +443,7 @@ type UnitResult struct {
 	Cross       []CrossResult    `json:"cross,omitempty"`
 	KnownSeen   []string         `json:"known_regions,omitempty"`
 	Paths       int              `json:"paths"`
+	Sliced      int              `json:"sliced_obligations"`
 	InitSteps   int              `json:"init_steps"`
 }
 
@@ -550,6 +551,20 @@ func (e *Engine) discharge(res *UnitResult, unit, fn string, maxViol int) {
 		}
 	}
 	res.Obligations = len(e.obls)
+	// independence slicing of the property obligations
+	sl := newSlicer(e)
+	full := map[*Term]*Term{} // sliced term -> full term
+	anySliced := false
+	_ = anySliced
+	for i := range props {
+		st, dropped := sl.slice(props[i])
+		if dropped {
+			anySliced = true
+			full[st] = props[i].t
+			props[i].t = st
+			res.Sliced++
+		}
+	}
 	logq := func(what string, q QueryResult) {
 		res.QueryLog = append(res.QueryLog, QueryInfo{what, q.Status, q.Secs, q.Nodes, q.By})
 	}
@@ -580,130 +595,216 @@ func (e *Engine) discharge(res *UnitResult, unit, fn string, maxViol int) {
 			res.Inconcl = append(res.Inconcl, "solver "+q.Status+" on unwinding/unsupported conditions")
 		}
 	}
-	// 2. property obligations, batched (optionally in parallel groups, one solver process each)
-	if e.parGroups > 1 && len(props) >= 2*e.parGroups {
-		groups := make([][]Obligation, e.parGroups)
-		for i, o := range props {
-			groups[i%e.parGroups] = append(groups[i%e.parGroups], o)
-		}
-		type gres struct {
-			q    QueryResult
-			grp  []Obligation
-			term *Term
-		}
-		out := make([]gres, len(groups))
-		for gi, g := range groups {
-			var ts []*Term
-			for _, o := range g {
-				ts = append(ts, o.t)
-			}
-			out[gi] = gres{grp: g, term: b.OrN(ts)}
-		}
-		var wg sync.WaitGroup
-		var cmu sync.Mutex
-		for gi := range out {
-			wg.Add(1)
-			go func(gi int) {
-				defer wg.Done()
-				s2 := NewSolver(e.solver.timeoutMs)
-				s2.tag, s2.dumpDir = fmt.Sprintf("%s-g%d", e.solver.tag, gi), e.solver.dumpDir
-				s2.crossOn = e.solver.crossOn
-				defer s2.Close()
-				out[gi].q = s2.Check(b, []*Term{out[gi].term}, "obligations")
-				cmu.Lock()
-				e.solver.Cross = append(e.solver.Cross, s2.Cross...)
-				for k, v := range s2.Wins {
-					e.solver.Wins[k] += v
-				}
-				cmu.Unlock()
-			}(gi)
-		}
-		wg.Wait()
-		var rest []Obligation
-		for gi, g := range out {
-			e.solver.Queries++
-			e.solver.Time += time.Duration(g.q.Secs * float64(time.Second))
-			logq(fmt.Sprintf("group %d/%d: batch of %d obligations (assertions + implicit panic guards)", gi+1, len(out), len(g.grp)), g.q)
-			if g.q.Status == "unsat" {
-				res.Discharged += len(g.grp)
-			} else {
-				rest = append(rest, g.grp...)
-			}
-		}
-		props = rest
-	}
-	remaining := props
+	// 2. property obligations: one short batched query first; if that does not close, every obligation is
+	// decided on its own (sliced form first), in parallel, each by the solver portfolio.
 	seenMsg := map[string]bool{}
-	for len(remaining) > 0 {
+	report := func(o Obligation, env *Env) {
+		if !seenMsg[o.msg+o.pos] && len(res.Violated) < maxViol {
+			seenMsg[o.msg+o.pos] = true
+			res.Violated = append(res.Violated, Violation{o.msg, o.pos, e.replayFrom(env, unit, fn)})
+		}
+	}
+	if len(props) > 0 {
+		// (a) the whole batch as one disjunctive query, (b) every obligation on its own, concurrently;
+		// (a) unsat discharges everything and cancels (b); otherwise (b) decides.
 		var ts []*Term
-		for _, o := range remaining {
+		for _, o := range props {
 			ts = append(ts, o.t)
 		}
-		q := e.solver.Check(b, []*Term{b.OrN(ts)}, "obligations")
-		logq(fmt.Sprintf("batch of %d obligations (assertions + implicit panic guards)", len(remaining)), q)
-		if q.Status == "unsat" {
-			res.Discharged += len(remaining)
-			break
-		}
-		if q.Status != "sat" {
-			// try one by one with a bounded budget
-			var still []Obligation
-			tStart := time.Now()
-			for oi, o := range remaining {
-				if len(still) >= 3 || time.Since(tStart) > 2*time.Duration(e.solver.timeoutMs)*time.Millisecond {
-					still = append(still, remaining[oi:]...)
-					break
+		batchTerm := b.OrN(ts)
+		cancelSingles := make(chan struct{})
+		cancelBatch := make(chan struct{})
+		var batchQ QueryResult
+		batchFull := false
+		batchDone := make(chan struct{})
+		go func() {
+			defer close(batchDone)
+			sb := NewSolver(e.solver.timeoutMs)
+			sb.tag, sb.dumpDir, sb.cancel = e.solver.tag, e.solver.dumpDir, cancelBatch
+			batchQ = sb.Check(b, []*Term{batchTerm}, "obligations")
+			if batchQ.Status == "sat" && anySliced {
+				// a model of sliced obligations is not a verdict: decide the batch on the full terms
+				var fts []*Term
+				for _, o := range props {
+					if f, ok := full[o.t]; ok {
+						fts = append(fts, f)
+					} else {
+						fts = append(fts, o.t)
+					}
 				}
-				q1 := e.solver.Check(b, []*Term{o.t}, "single")
-				logq("single obligation: "+o.msg, q1)
-				switch q1.Status {
+				batchQ = sb.Check(b, []*Term{b.OrN(fts)}, "obligations-full")
+				batchFull = true
+			}
+			if batchQ.Status == "unsat" || batchQ.Status == "sat" {
+				close(cancelSingles)
+			}
+		}()
+		type sres struct {
+			status string
+			env    *Env
+			q      QueryResult
+			ran    bool
+		}
+		out := make([]sres, len(props))
+		workers := e.parGroups
+		if workers < 1 {
+			workers = 1
+		}
+		if workers > 8 {
+			workers = 8
+		}
+		if len(props) == 1 {
+			workers = 0
+		}
+		// give the batch a head start: single-obligation queries only begin if it is still running after a while
+		delay := time.Duration(e.solver.timeoutMs/4) * time.Millisecond
+		if delay > 40*time.Second {
+			delay = 40 * time.Second
+		}
+		if workers > 0 {
+			select {
+			case <-batchDone:
+				if batchQ.Status == "unsat" || batchQ.Status == "sat" {
+					workers = 0
+				}
+			case <-time.After(delay):
+			}
+		}
+		var wg sync.WaitGroup
+		var mu sync.Mutex
+		next := 0
+		budget := time.Now().Add(time.Duration(e.solver.timeoutMs) * time.Millisecond * 2)
+		for w := 0; w < workers; w++ {
+			wg.Add(1)
+			go func() {
+				defer wg.Done()
+				for {
+					select {
+					case <-cancelSingles:
+						return
+					default:
+					}
+					mu.Lock()
+					i := next
+					next++
+					mu.Unlock()
+					if i >= len(props) {
+						return
+					}
+					if time.Now().After(budget) {
+						out[i] = sres{status: "unknown(budget for single obligations exhausted)", ran: true}
+						continue
+					}
+					o := props[i]
+					s2 := NewSolver(e.solver.timeoutMs)
+					s2.tag, s2.dumpDir, s2.cancel = fmt.Sprintf("%s-o%d", e.solver.tag, i), e.solver.dumpDir, cancelSingles
+					q1 := s2.Check(b, []*Term{o.t}, "single")
+					if q1.Status == "sat" {
+						if f, sliced := full[o.t]; sliced {
+							// a sliced sat is not a verdict: decide the full obligation
+							q1 = s2.Check(b, []*Term{f}, "single-full")
+						}
+					}
+					out[i] = sres{status: q1.Status, env: q1.Env, q: q1, ran: true}
+				}
+			}()
+		}
+		singlesDone := make(chan struct{})
+		go func() { wg.Wait(); close(singlesDone) }()
+		if workers == 0 {
+			<-batchDone
+			if batchQ.Status != "unsat" && batchQ.Status != "sat" && len(props) > 1 {
+				// batch finished without closing before the head start elapsed: decide singles sequentially
+				for i, o := range props {
+					s2 := NewSolver(e.solver.timeoutMs)
+					q1 := s2.Check(b, []*Term{o.t}, "single")
+					if q1.Status == "sat" {
+						if f, sliced := full[o.t]; sliced {
+							q1 = s2.Check(b, []*Term{f}, "single-full")
+						}
+					}
+					out[i] = sres{status: q1.Status, env: q1.Env, q: q1, ran: true}
+				}
+			}
+		} else {
+			select {
+			case <-batchDone:
+				if batchQ.Status != "unsat" && batchQ.Status != "sat" {
+					<-singlesDone
+				}
+			case <-singlesDone:
+				// all singles decided?
+				all := true
+				for i := range out {
+					if !out[i].ran || (out[i].status != "sat" && out[i].status != "unsat") {
+						all = false
+					}
+				}
+				if all {
+					close(cancelBatch)
+				}
+				<-batchDone
+			}
+		}
+		<-singlesDone
+		e.solver.Queries++
+		e.solver.Time += time.Duration(batchQ.Secs * float64(time.Second))
+		logq(fmt.Sprintf("batch of %d obligations (assertions + implicit panic guards), %d with independence-sliced path conditions", len(props), res.Sliced), batchQ)
+		if batchQ.Status == "unsat" {
+			res.Discharged += len(props)
+		} else {
+			if batchQ.Status == "sat" {
+				hit := false
+				for i, o := range props {
+					t := o.t
+					if f, sliced := full[o.t]; sliced {
+						if !batchFull {
+							continue
+						}
+						t = f
+					}
+					if batchQ.Env.Eval(t) == 1 {
+						hit = true
+						if !(out[i].ran && out[i].status == "sat") {
+							out[i] = sres{status: "sat", env: batchQ.Env, q: batchQ, ran: true}
+						}
+					} else if !out[i].ran || (out[i].status != "sat" && out[i].status != "unsat") {
+						// a violation has been found; the remaining obligations of this unit are not pursued
+						out[i] = sres{status: "skipped", ran: true}
+					}
+				}
+				if !hit {
+					res.Inconcl = append(res.Inconcl, "model satisfies no obligation (evaluator/solver mismatch)")
+				}
+			}
+			nUnknown := 0
+			for i, o := range props {
+				r := out[i]
+				if !r.ran {
+					r.status = "unknown(not decided)"
+				}
+				e.solver.Queries++
+				e.solver.Time += time.Duration(r.q.Secs * float64(time.Second))
+				if len(res.QueryLog) < 60 {
+					logq("single obligation: "+o.msg+" ["+o.pos+"]", r.q)
+				}
+				switch r.status {
 				case "unsat":
 					res.Discharged++
+				case "skipped":
 				case "sat":
-					if !seenMsg[o.msg+o.pos] {
-						seenMsg[o.msg+o.pos] = true
-						res.Violated = append(res.Violated, Violation{o.msg, o.pos, e.replayFrom(q1.Env, unit, fn)})
+					oo := o
+					if f, sliced := full[o.t]; sliced {
+						oo.t = f
 					}
+					report(oo, r.env)
 				default:
-					still = append(still, o)
+					nUnknown++
+					if nUnknown <= 8 {
+						res.Inconcl = append(res.Inconcl, "solver "+r.status+" on: "+o.msg+" ["+o.pos+"]")
+					}
 				}
 			}
-			for _, o := range still {
-				res.Inconcl = append(res.Inconcl, "solver unknown on: "+o.msg+" ["+o.pos+"]")
-				if len(res.Inconcl) > 8 {
-					break
-				}
-			}
-			break
-		}
-		// sat: find violated ones under the model
-		var next []Obligation
-		hit := false
-		for _, o := range remaining {
-			if q.Env.Eval(o.t) == 1 {
-				if !seenMsg[o.msg+o.pos] {
-					seenMsg[o.msg+o.pos] = true
-					res.Violated = append(res.Violated, Violation{o.msg, o.pos, e.replayFrom(q.Env, unit, fn)})
-				}
-				hit = true
-			} else if !seenMsg[o.msg+o.pos] {
-				next = append(next, o)
-			}
-		}
-		if !hit {
-			res.Inconcl = append(res.Inconcl, "model satisfies no obligation (evaluator/solver mismatch)")
-			break
-		}
-		// drop all obligations with an already reported message
-		var nn []Obligation
-		for _, o := range next {
-			if !seenMsg[o.msg+o.pos] {
-				nn = append(nn, o)
-			}
-		}
-		remaining = nn
-		if len(res.Violated) >= maxViol {
-			break
 		}
 	}
 	// 3. reachability witness (vacuity guard)
